@@ -1311,6 +1311,71 @@ func (w *World) Listing() {
 		}
 		w.tr.Emit(wev)
 	}
+	for qi, q := range snap.Queues {
+		name := scqName(q.InstanceNamePrefix, platLabel(q.Platform), uint32(q.SizeClass))
+		// drains of the queue
+		dr, err := w.bq.ListDrains(ctx, &buildqueuestate.ListDrainsRequest{SizeClassQueueName: name})
+		dev := common.Ev{"ev": "listing", "what": "drains", "queue": qi, "ok": err == nil, "patterns": [][]common.Ev{}}
+		if err == nil {
+			pats := [][]common.Ev{}
+			for _, d := range dr.Drains {
+				pats = append(pats, pairsOf(workerKeyJSON(d.WorkerIdPattern)))
+			}
+			dev["patterns"] = pats
+		}
+		w.tr.Emit(dev)
+		// workers by filter, in pages of one
+		for _, inv := range q.Invocations {
+			iname := w.invocationName(q, inv.Path)
+			fev := common.Ev{"ev": "listing", "what": "workers_filtered", "queue": qi, "path": w.pathLabels(inv.Path), "ok": true, "executing": []string{}, "idle_sync": []string{}}
+			for _, f := range []string{"executing", "idle_sync"} {
+				ids := []string{}
+				var after *buildqueuestate.ListWorkersRequest_StartAfter
+				for i := 0; i < 100; i++ {
+					filter := &buildqueuestate.ListWorkersRequest_Filter{Type: &buildqueuestate.ListWorkersRequest_Filter_Executing{Executing: iname}}
+					if f == "idle_sync" {
+						filter = &buildqueuestate.ListWorkersRequest_Filter{Type: &buildqueuestate.ListWorkersRequest_Filter_IdleSynchronizing{IdleSynchronizing: iname}}
+					}
+					r, err := w.bq.ListWorkers(ctx, &buildqueuestate.ListWorkersRequest{Filter: filter, PageSize: 1, StartAfter: after})
+					if err != nil {
+						fev["ok"] = false
+						break
+					}
+					if len(r.Workers) == 0 {
+						break
+					}
+					x := r.Workers[0]
+					ids = append(ids, w.workerLabel(workerKeyJSON(x.Id)))
+					after = &buildqueuestate.ListWorkersRequest_StartAfter{WorkerId: x.Id}
+				}
+				fev[f] = ids
+			}
+			w.tr.Emit(fev)
+		}
+	}
+	// every operation by name, and one that does not exist
+	for _, o := range append(append([]scheduler.VerifOperation{}, snap.Operations...), scheduler.VerifOperation{Name: opUUID("o99")}) {
+		r, err := w.bq.GetOperation(ctx, &buildqueuestate.GetOperationRequest{OperationName: o.Name})
+		gev := common.Ev{"ev": "listing", "what": "getop", "name": opLabel(o.Name), "ok": err == nil, "stage": "", "prio": 0, "inv": []string{}}
+		if err == nil {
+			switch r.Operation.Stage.(type) {
+			case *buildqueuestate.OperationState_Queued:
+				gev["stage"] = "Q"
+			case *buildqueuestate.OperationState_Executing:
+				gev["stage"] = "E"
+			case *buildqueuestate.OperationState_Completed:
+				gev["stage"] = "C"
+			}
+			gev["prio"] = int(r.Operation.Priority)
+			path := []string{}
+			for _, id := range r.Operation.InvocationName.GetIds() {
+				k, _ := invocation.NewKey(id)
+				path = append(path, w.invLabel(string(k)))
+			}
+			gev["inv"] = path
+		}
+		w.tr.Emit(gev)
+	}
 	// all operations, in pages of two
 	names, stages := []string{}, []string{}
 	var after *buildqueuestate.ListOperationsRequest_StartAfter
